@@ -10,7 +10,7 @@ RULE = ("seeded columns of type optional/required LIST<optional/required primiti
         "(v1) or at row boundaries (v2), plain or dictionary values, 1-3 row groups, primitives int32/int64/double/utf8/boolean; non-trivial = "
         ">=1 row compared; distinct = distinct (kind, optionality, element type, page version, dictionary, page cut class, codec) tuples")
 ASSUMPTIONS = ["the reference writer's file is first validated and re-assembled by the reference reader; a disagreement there is a harness error"]
-CASE_TIMEOUT = 300
+CASE_TIMEOUT = 120
 
 PRIMS = ["i32", "i64", "f64", "utf8", "bool"]
 
@@ -32,6 +32,17 @@ def gen_cases(tier, seed):
                       "_": 0,
                       "codec": ["UNCOMPRESSED", "SNAPPY", "GZIP", "ZSTD"][int(rng.integers(0, 4))],
                       "long_rows": bool(i % 7 == 0)})
+    # dictionary fallback inside a nested chunk: the first page(s) dictionary-encoded, the rest PLAIN (what parquet-mr / parquet-cpp do
+    # once a dictionary grows too large); v1 pages, rows may continue across the change of encoding
+    for i in range(90 if tier == "quick" else 1500):
+        cases.append({"id": "NF/%d/%d" % (seed, i), "seed": int(rng.integers(0, 2 ** 31)), "kind": ["LIST", "MAP", "LIST"][i % 3], "prim": ["i64", "utf8", "i32", "f64"][i % 4],
+                      "key_prim": ["utf8", "i32", "i64"][int(rng.integers(0, 3))],
+                      "top_optional": bool(rng.integers(0, 2)), "elem_optional": bool(rng.integers(0, 2)),
+                      "row_groups": [int(rng.integers(8, 40)) for _ in range(int(rng.integers(1, 3)))],
+                      "max_len": int([3, 8, 30][int(rng.integers(0, 3))]), "p_null_row": float([0, 0.2][int(rng.integers(0, 2))]),
+                      "p_null_elem": float([0, 0.3][int(rng.integers(0, 2))]), "p_empty": float([0, 0.3][int(rng.integers(0, 2))]),
+                      "page_values": [int(x) for x in rng.integers(3, 25, 3)], "page_version": 1, "use_dict": True, "dict_fallback_page": 1 + i % 2,
+                      "_": 0, "codec": ["UNCOMPRESSED", "SNAPPY", "GZIP", "ZSTD"][int(rng.integers(0, 4))], "long_rows": bool(i % 5 == 0)})
     # files with several nested columns of differing shape (levels must be derived per column path)
     for i in range(60 if tier == "quick" else 1500):
         ncol = int(rng.integers(2, 4))
@@ -104,6 +115,8 @@ def make(case):
         rows.append(row)
     cs = {"name": "n", "ptype": t[1], "converted": t[2], "rows": rows, "use_dict": case["use_dict"] and case["prim"] != "bool", "page_rows": case["page_values"],
           "page_version": case["page_version"], "def_plan": "mixed", "rep_plan": "mixed", "idx_plan": "mixed"}
+    if case.get("dict_fallback_page") is not None:
+        cs["dict_fallback_page"] = case["dict_fallback_page"]
     if case["kind"] == "LIST":
         cs["nested"] = {"kind": "LIST", "top_optional": case["top_optional"], "elem_optional": case["elem_optional"]}
     else:
@@ -155,12 +168,15 @@ def run_case(case):
         counters["nested_columns"] = len(subs)
         if len(subs) > 1:
             counters["multi_nested_column_files"] = 1
+        if case.get("dict_fallback_page") is not None:
+            counters["nested_dictionary_fallback_files"] = 1
         case = dict(subs[0], id=case["id"], row_groups=case["row_groups"], codec=case["codec"], n_nested_columns=len(subs))
         with open(path, "wb") as f:
             f.write(data)
         ctx = {"nested": case["kind"], "prim": case["prim"], "top_optional": case["top_optional"], "elem_optional": case["elem_optional"],
                "page_version": case["page_version"], "use_dict": case["use_dict"], "codec": case["codec"],
-               "single_page": case["page_values"] == [10 ** 9], "long_rows": case["long_rows"], "row_groups": case["row_groups"]}
+               "single_page": case["page_values"] == [10 ** 9], "long_rows": case["long_rows"], "row_groups": case["row_groups"],
+               "dict_fallback_page": case.get("dict_fallback_page")}
         asm = _state.get("asm")
         a0 = asm.stats() if asm else None
         try:
@@ -288,8 +304,8 @@ def _same_elem(a, b, prim):
 def _feat(case):
     pv = case["page_values"]
     cut = "single" if pv == [10 ** 9] else ("tiny" if min(pv) <= 2 else "small")
-    return [case["kind"], case["top_optional"], case["elem_optional"], case["prim"], str(case["page_version"]), case["use_dict"], cut, case["codec"], case["long_rows"]]
+    return [case["kind"], case["top_optional"], case["elem_optional"], case["prim"], str(case["page_version"]), case["use_dict"], cut, case["codec"], case["long_rows"], case.get("dict_fallback_page")]
 
 
 def required(tier):
-    return {"rows_compared": 3000, "assemble_calls_checked": 500, "multi_nested_column_files": 20}
+    return {"rows_compared": 3000, "assemble_calls_checked": 500, "multi_nested_column_files": 20, "nested_dictionary_fallback_files": 40}
